@@ -297,6 +297,11 @@ class Interp:
             k = pr[0]
             if k == 'field':
                 if pl.local == 1 and v is None and len(pl.proj) >= 1 and pr is pl.proj[0]:
+                    cv = self.cfg.get('captures', {}).get(pr[1])
+                    if cv is not None and cap_kind(pr[2]) == 'UPSTREAM':
+                        # a scalar captured by the closure whose value was evaluated from Pipe::new for this configuration
+                        v = Val('bool', z3.BoolVal(cv)) if isinstance(cv, bool) else Val('int', bv(cv))
+                        continue
                     v = Val('cap', cap_kind(pr[2]), pr[1])
                     continue
                 if (v is None or v.kind == 'unit') and len(pr) > 2 and pr[2] and cap_kind(pr[2]) != 'UPSTREAM':
